@@ -124,7 +124,7 @@ type simNet struct {
 	an       *p2p.P2PMessaging // the gnosis access node's registries
 	inflight []*packet
 	prod     []prodObs // messages produced during the current step
-	idHash   [][]byte // identities hash of round r at index r-1
+	idHash   [][]byte  // identities hash of round r at index r-1
 	ctx      context.Context
 	cancel   context.CancelFunc
 }
